@@ -262,9 +262,10 @@ func (s *Staking) distributeRewards(ctx *context) (map[common.Address]struct{}, 
 	// settle rewards before validators updating
 	initStat, _ := ctx.db.GetValidatorsStat()
 
-	if initStat.GetStakeByKind(params.KindValidator).Sign() <= 0 {
-		return nil, fmt.Errorf("empty stake")
-	}
+	// Note: with no online stake there is nothing to hand out below (roles without online
+	// validators are skipped, offline validators are still settled). This must not abort the
+	// period end: the withdraw queue and the pending staking transactions (with their detained
+	// deposits) are processed after it, and the staking trie does not outlive the period.
 
 	// rewards to validators, handle role by role.
 	// There are two rules:
